@@ -635,6 +635,7 @@ func runC16(withErrors bool) func(ch chooser.Chooser, st *Stats) *Outcome {
 		if res.Switches > 0 {
 			st.Inc("probe:context_switch_between_scanner_reads", 1)
 		}
+		st.Inc("sched:threads_detached", int64(res.Detached))
 		if v := schedViolation(res); v != nil {
 			out.Violation = v
 			return out
